@@ -73,8 +73,7 @@ def check_observe(ctx):
             ctx.check(a.get("k") == "const" and a.get("val") == 1, inst, "PIN", b.path, "migrated timestamps are explicit (observed by the clock)", b.where(h))
 
 
-def check_next(ctx):
-    inst = "C12.next"
+def check_next(ctx, inst="C12.next"):
     b = ctx.fn("VersionClock::next", inst)
     if b is not None:
         cas = ctx.sites(b, R.call("Atomic::compare_exchange_weak", "Atomic::compare_exchange"), inst, exact=1)
@@ -111,6 +110,14 @@ def check_next(ctx):
         if cas:
             new = R.arg_expr(b, b.nodes[cas[0]], 2)
             ctx.check(new.k == "arg" and new.extra[0] == 3, inst, "PROVENANCE", b.path, "observe installs exactly the observed timestamp", b.where(cas[0]))
+        # observe does not give up: it returns only once the clock is at least the observed timestamp (the test fails) —
+        # a failed exchange goes round again, its result is not discarded
+        rets = b.return_nodes()
+        r_, ps_ = A.reach(b, [b.entry], blocked_edges=frozenset(A.pred_edges(b, gt, "false")))
+        for (sw, l) in R.guard_edges_for_call(b, cas, "Err"):
+            rr, _ = A.reach(b, [t for (t, lab) in b.nodes[sw].succ if lab == l], blocked_nodes=set(cas), blocked_edges=frozenset(A.pred_edges(b, gt, "false")))
+            ctx.check(not any(x in rr for x in rets), inst, "FOLLOW", b.path, "a lost compare-exchange is retried (observe returns only when the clock has reached the timestamp)", b.where(sw))
+        ctx.check(bool(R.guard_edges_for_call(b, cas, "Err")), inst, "NODISCARD", b.path, "the outcome of the compare-exchange is examined", b.where(cas[0]) if cas else None)
         # the terminal timestamp never enters a clock shard: a shard at u64::MAX makes next() return MAX for every key that
         # hashes to it, so their second automatic write would be rejected as older. The exemption has to sit where *all*
         # feeders pass (recovery and lazy expiry call observe directly), i.e. inside observe or at every call site.
